@@ -88,6 +88,14 @@ def record(rr, text, ignore):
     return rec
 
 
+def ids_of(lines):
+    out = []
+    for ln in lines:
+        if C.is_atom(ln) and C.resid(ln) not in out:
+            out.append(C.resid(ln))
+    return out
+
+
 def constructed(ctx):
     out = []
     frag = C.chain_lines("1HPX", "A", 22, 6)       # ... Asp25 ...
@@ -116,6 +124,11 @@ def constructed(ctx):
     idx = max(i for i, ln in enumerate(both) if side(ln))
     both = both[:idx + 1] + b + both[idx + 1:]
     out.append(("alt-rotamers-AB", C.join(both + [C.TER])))
+    # whole terminal residues in two alternate locations (their N / OXT atoms carry alt-loc labels too)
+    ft = C.chain_lines("1FTJ-Chain-A", "A", 0, 5)
+    out.append(("nterm-residue-altAB", C.join(C.add_altloc(ft, ids_of(ft)[0], delta=(400, 300, -200), backbone=()) + [C.TER])))
+    ct = C.chain_lines("1HPX", "A", 94, 5)
+    out.append(("cterm-residue-altAB", C.join(C.add_altloc(ct, ids_of(ct)[-1], delta=(300, -300, 200), backbone=()) + [C.TER])))
     out.append(("alt-digits-12", C.join([ln[:16] + {"A": "1", "B": "2"}.get(ln[16], ln[16]) + ln[17:] if C.is_atom(ln) else ln for ln in both] + [C.TER])))
     # the Asp side chain exists only in alt A (other atoms of the residue have A and B copies of CB)
     cb_b = [ln for ln in b if ln[12:16].strip() == "CB"]
@@ -222,7 +235,8 @@ def run(ctx):
     wd = tlc.workdir("c08")
     tf = os.path.join(wd, "conf.json")
     json.dump(recs, open(tf, "w"))
-    invs = ["Names", "NeverMerged", "CompletedOK", "MeanOK", "ReportedUnion", "AvrOnce", "AvrOnlyReported", "AgreeingAverageToThemselves"]
+    invs = ["Names", "NeverMerged", "CompletedOK", "MeanOK", "ReportedUnion", "AvrOnce", "AvrOnlyReported", "AgreeingAverageToThemselves",
+            "SameResidueSameGroups"]
     res, viol = tlc.trace_check("Trace_Conf", invs, tf, timeout=3000)
     ctx.add_tlc(res, "trace validation of multi-conformation runs (%d)" % len(recs))
     ctx.traces += len(recs)
